@@ -124,7 +124,7 @@ Proof. reflexivity. Qed.
 (* the observation line only shows core and logger flags *)
 Lemma observe_after_reset : forall h r s, ready s = true -> reset_like r = true ->
   firstn 2 (observe (run (h ++ [r]) s)) = [1; 1] /\ firstn 3 (skipn 3 (observe (run (h ++ [r]) s))) = [1; 0; 0] /\
-  skipn 8 (observe (run (h ++ [r]) s)) = [0; 0].
+  skipn 8 (observe (run (h ++ [r]) s)) = [0; 0; 0].
 Proof.
   intros h r s H Hr. unfold observe. rewrite (fresh_equiv h r s H Hr). simpl. repeat split; reflexivity.
 Qed.
